@@ -104,6 +104,13 @@ def run_case(case):
                 expected = R.ColumnError
                 calls = []
                 mref = ["ref", missing]
+                # 40 %: TWO columns are missing at once (tags need not be orderable or otherwise
+                # comparable beyond equality: whatever builds the error message must cope)
+                missing2 = next((x for x in KEYS + "xyz" if x not in cols and x != missing), None)
+                two = missing2 is not None and rng.random() < 0.4
+                if two:
+                    c["requests_missing_two_columns"] = c.get("requests_missing_two_columns", 0) + 1
+                    mref = ["add", ["ref", missing], ["ref", missing2]]
                 if edit == "calc_missing":
                     e = ["add", mref, ["ref", some]] if some else mref
                     calls = [(o, lambda kw, e=e: rel.with_calculated_column(T(free[0]), exprs.elib(e), **kw)) for o in combos]
@@ -114,7 +121,7 @@ def run_case(case):
                     terms = ([[["ref", some], True]] if some else []) + [[mref, False]]
                     calls = [(o, lambda kw, terms=terms: rel.sorted([R.SortTerm(exprs.elib(e), a) for e, a in terms], **kw)) for o in combos]
                 elif edit == "proj_missing":
-                    keep = set(cols[:1]) | {missing}
+                    keep = set(cols[:1]) | {missing} | ({missing2} if two else set())
                     calls = [(o, lambda kw, keep=keep: rel.with_only_columns({T(x) for x in keep}, **kw)) for o in combos]
                 elif edit == "calc_existing_tag":
                     if not cols:
@@ -133,7 +140,7 @@ def run_case(case):
                     if edit == "join_pred_missing":
                         # prefer a column that exists upstream but is hidden here
                         free2 = missing if missing != "a" else next(x for x in KEYS + "xyz" if x not in cols and x != "a")
-                        p = exprs.plib(["cmp", "eq", ["ref", free2], ["lit", 0]])
+                        p = exprs.plib(["cmp", "eq", ["ref", free2] if not two else ["add", ["ref", free2], ["ref", next(x for x in KEYS + "xyz" if x not in cols and x not in ("a", free2))]], ["lit", 0]])
                         calls = [({"bt": bt, "tr": tr}, lambda kw, p=p: rel.join(fixed, p, **kw)) for bt in (True, False) for tr in (False, True)]
                     elif edit == "unsupported_join_pred":
                         expected = R.EngineError
